@@ -20,7 +20,7 @@ REPO = os.environ.get("VERIF_REPO", "/repo")
 SRC = os.path.join(REPO, "src", "diffpy", "structure")
 COQ = os.path.join(VERIF, "coq")
 GEN = os.path.join(COQ, "Gen")
-EVID = os.path.join(VERIF, "evidence")
+EVID = os.environ.get("VERIF_EVIDENCE_DIR") or os.path.join(VERIF, "evidence")   # seeded-change runs write elsewhere
 REPLAYS = os.path.join(VERIF, "replays")
 LOCK = os.path.join(VERIF, ".build.lock")
 NPROC = os.cpu_count() or 4
